@@ -177,6 +177,53 @@ def run_case(ctx, res, case, lines, post):
     res.case(('c14', str(case)), True, {'case': case, 'model_calls': ncalls, 'fault_plans': len(plans)})
 
 
+def run_special_outputs_case(ctx, res):
+    """a model that also reports `model_cost`: one failure in a call that has successes (the failed point is stored with
+    model_cost = NaN) and a later call in which EVERY evaluation fails (stored without that key)"""
+    from amisc import Component, Variable
+    from amisc.training import SparseGrid
+    for fail_at in ({3, 5, 6}, {4, 5, 6}, {3}, {5, 6}):
+        n = [0]
+        per_call = []
+
+        def model(inputs, model_fidelity=(0,), fail_at=fail_at):
+            n[0] += 1
+            if n[0] in fail_at:
+                raise RuntimeError(f'injected failure at call {n[0]}')
+            return {'y': float(inputs['x']) ** 2 + 1.0 + 0.1 * model_fidelity[0], 'model_cost': 2.5 + model_fidelity[0]}
+        comp = Component(model, inputs=[Variable('x', domain=(0, 1))], outputs=[Variable('y')], model_fidelity=(1,),
+                         data_fidelity=(3,), training_data=SparseGrid(opt_args={'locally_biased': False, 'maxfun': 60}))
+        hist = [((0,), (0,)), ((0,), (1,)), ((1,), (0,)), ((0,), (2,)), ((1,), (1,)), ((0,), (3,)), ((1,), (2,))]
+        info = {'special_outputs': True, 'failed_call_numbers': sorted(fail_at), 'history': [list(a) + list(b) for a, b in hist]}
+        err = None
+        for a, b in hist:
+            before = n[0]
+            try:
+                comp.activate_index(a, b)
+            except Exception as e:  # noqa: BLE001
+                err = repr(e)[:300]
+                break
+            per_call.append(set(range(before + 1, n[0] + 1)))
+        per_call.append(set(range(sum(len(c) for c in per_call) + 1, n[0] + 1)))
+        all_failed_call = any(c and c <= fail_at for c in per_call)
+        mixed_failure = any((c & fail_at) and not (c <= fail_at) for c in per_call)
+        sig = 'all-failed-call-lacks-special-outputs' if (all_failed_call and mixed_failure) else 'none'
+        if err is not None:
+            res.failures.append({'kind': 'training-did-not-complete-after-failed-evaluation', 'signature': sig, 'input': info,
+                                 'observed': err})
+        else:
+            try:
+                y = comp.predict({'x': np.array([0.3, 0.77])})['y']
+                if not np.all(np.isfinite(y)):
+                    res.failures.append({'kind': 'prediction-not-finite-after-failed-evaluation', 'signature': sig,
+                                         'input': info, 'observed': np.asarray(y).tolist()})
+            except Exception as e:  # noqa: BLE001
+                res.failures.append({'kind': 'prediction-raised-after-failed-evaluation', 'signature': sig, 'input': info,
+                                     'observed': repr(e)[:300]})
+        res.hit('special-outputs-plan')
+    res.case(('c14-special-outputs',), True, {'special_outputs': True})
+
+
 def run(ctx: core.Ctx, only=None) -> core.Result:
     res = core.Result()
     res.rule = ('scripted activation sequences on components with 1-2 inputs, 0-1 model-fidelity dims, 1-2 outputs; fault '
@@ -187,7 +234,12 @@ def run(ctx: core.Ctx, only=None) -> core.Result:
     cases = [o.get('input', o) for o in only] if only is not None else core.corpus_cases('C14') + \
         [gen_case(ctx.rng) for _ in range(ctx.scale(5, 30))]
     keys = ('nin', 'alpha_lim', 'beta_lim', 'kpl', 'nout', 'nsteps', 'fseed', 'mode')
+    if only is None or any(c.get('special_outputs') for c in cases):
+        with core.guarded(res, 'scenario-raised', {'special_outputs': True}):
+            run_special_outputs_case(ctx, res)
     for case in cases:
+        if case.get('special_outputs'):
+            continue
         case = {k: (tuple(case[k]) if k.endswith('_lim') else case[k]) for k in keys}
         with core.guarded(res, 'scenario-raised', case):
             run_case(ctx, res, case, lines, post)
@@ -213,6 +265,19 @@ def run(ctx: core.Ctx, only=None) -> core.Result:
             res.extra.setdefault('known_lines', []).append(
                 ('F4', 'unimputable-first-of-alpha: a failed evaluation that is the first (only) evaluation of its model '
                        'fidelity cannot be imputed: training crashes (KeyError) or predictions raise / are not finite'))
+    if 'F14' in kf:
+        kept = []
+        for f_ in res.failures:
+            if f_.get('signature') == 'all-failed-call-lacks-special-outputs':
+                res.known_hits['F14'] = res.known_hits.get('F14', 0) + 1
+            else:
+                kept.append(f_)
+        res.failures = kept
+        if res.known_hits.get('F14'):
+            res.extra.setdefault('known_lines', []).append(
+                ('F14', 'all-failed-call-lacks-special-outputs: for a model that also returns special outputs (model_cost), a '
+                        'model call in which every evaluation failed stores records without those keys; together with a failed '
+                        'evaluation stored WITH them (NaN) the imputation step raises KeyError and training stops'))
     return res
 
 
